@@ -123,6 +123,38 @@ the `Unit`, a unit that sets none translates exactly as before):
   modified, only the first error matters); `FunSpec.owner = B`: the method inherited from `B`, translated again
   for the fields of `C` under its own alias -- `self.m` reaches it only if `C` does not define `m` (checked),
   `super().m(..)` (in a method defined by `C`) always does.
+
+Fourth extension (used by `translator/lca_gen.py`; again every item is switched on by a declaration or a flag of the
+`Unit`, a unit that sets none translates exactly as before):
+
+* `Unit.ntree(name, ident, eqb)`: a type of immutable trees whose nodes have any number of children: an `Inductive`
+  with an identifier and the list of children at every node; `x.is_leaf()` is `<name>_is_leaf x` (no child), `a == b` /
+  `a != b` on two nodes compare the identifiers with `eqb` (identity of the objects); `for c in x.children` is a loop over
+  `<name>_children x` (a dictionary declared with `Unit.nodedict` may be keyed by such nodes);
+* a module-level function with `FunSpec.rec_on` (a parameter of such a tree type) that calls itself on a child of that
+  parameter -- a variable bound by `for c in <parameter or child>.children` -- is a `Fixpoint ... {struct p}`; a loop over
+  the children whose body makes the recursive call is emitted in place as a local `fix` over the variables the body
+  assigns (nested recursion; Coq's guard checker re-checks the decrease); a recursive call anywhere else aborts.  A function
+  parameter may have a non-negative int literal as default: a call that omits it passes the literal;
+* type `pair T1 T2` (a 2-tuple of immutable values): `(a, b)` is the pair, `t[0]` / `t[1]` (literal index only) `fst` / `snd`,
+  `for i, (a, b) in enumerate(xs)` binds the components (`_` binds nothing); `Unit.pair_ltb` emits Python's `<` on
+  tuples `(int, node)`, with an unknown function for `<` between two distinct nodes (ete3 nodes define none);
+* list displays `[e1, .., en]`, `xs.extend(e)` (`xs ++ e`), `xs[k:]` as the sequence a `for` iterates (`skipn`), `f(..)`
+  returning a list as a freshly built list when `f` takes no list (nothing else can name the result), `max(a, b)` on
+  ints (`products`), `a = b = e` on ints / booleans;
+* a dictionary keyed by nodes (`nodedict`) may be an attribute created empty (`{}`) and filled (`d[k] = e`) by
+  `__init__`; `k in d` / `k not in d` is `dict_mem`; the key of `d[k]` may itself be an indexing (`d[xs[0]]`);
+* `raises`: `raise E("literal")` with `E` one of IndexError, AssertionError, TypeError, ValueError, KeyError (not rebound
+  anywhere in the module) is that error; nothing may follow it in its block;
+* `pure_self_calls`: a method declared `pure` may call methods declared `pure` (translated before it) anywhere in an
+  expression, also inside the arguments of such a call; `self(..)` is `self.__call__(..)`; the calls are hoisted in
+  Python's evaluation order (nothing can be modified, only the first error matters); `return a or b` / `return a and b`
+  on booleans whose later operand can raise is the conditional it abbreviates (the later operand is not evaluated when
+  the first one decides);
+* `Unit.foreign_class(name, module, coq, lift, init, call)`: a class imported from another module that another driver
+  translates (with `pyfun`) into another generated file: `name(args)` -- only as the value `__init__` assigns to an
+  attribute declared of that type -- and `self.attr(args)` are the declared Coq functions, their results converted
+  with `lift`; the object returned by a call is dropped (the driver has checked that the call only reads its object).
 """
 from __future__ import annotations
 
@@ -179,7 +211,11 @@ Fixpoint dict_get {K V : Type} (keqb : K -> K -> bool) (d : list (K * V)) (k : K
   | nil => None
   | cons (k', v) d' => if keqb k k' then Some v else dict_get keqb d' k
   end."""
-HELPER_DEPS = {"nset": ["list_set"], "zget": ["zpos"], "zset": ["zpos", "list_set"]}
+HELPERS["dict_mem"] = """\
+(* k in d *)
+Definition dict_mem {K V : Type} (keqb : K -> K -> bool) (d : list (K * V)) (k : K) : bool :=
+  match dict_get keqb d k with Some _ => true | None => false end."""
+HELPER_DEPS = {"nset": ["list_set"], "zget": ["zpos"], "zset": ["zpos", "list_set"], "dict_mem": ["dict_get"]}
 SET_DEFS2 = """\
 (* set(xs): the elements of xs, each once, in order of first occurrence; a <= b: every element of a is in b *)
 Definition set_of_list (l : list A) : list A := fold_left (fun s x => set_add x s) l nil.
@@ -206,6 +242,7 @@ BINOPS = {ast.Add: "add", ast.Sub: "sub", ast.BitAnd: "land", ast.BitOr: "lor",
 CMPOPS = {ast.Eq: ("eqb", False, False), ast.NotEq: ("eqb", False, True), ast.Lt: ("ltb", False, False),
           ast.LtE: ("leb", False, False), ast.Gt: ("ltb", True, False), ast.GtE: ("leb", True, False)}  # (fn, swap, negate)
 IMMUTABLE = ("N", "Z", "bool", "elem", "option N", "option Z", "option bool", "option elem")
+RAISABLE = ("IndexError", "AssertionError", "TypeError", "ValueError", "KeyError")   # `raise <one of these>(..)`
 FORBIDDEN_METHODS = ("__getattr__", "__getattribute__", "__setattr__", "__delattr__", "__slots__")
 
 
@@ -227,6 +264,10 @@ def norm_type(t: str, extra=()) -> str:
             return r, i + 1
         if toks[i] in BASE_TYPES or toks[i] in extra:
             return toks[i], i + 1
+        if toks[i] == "pair":                 # pair T1 T2: a Python 2-tuple (immutable)
+            a, j = parse(i + 1)
+            b, j = parse(j)
+            return "pair " + " ".join(x if " " not in x else "(" + x + ")" for x in (a, b)), j
         if toks[i] in ("list", "option"):
             if i + 1 >= len(toks) or toks[i + 1] == ")":
                 if toks[i] == "list":
@@ -260,15 +301,42 @@ def arg_of(t: str) -> str:
     return a[1:-1] if a.startswith("(") else a
 
 
+def is_pair(t: str) -> bool:
+    return t.startswith("pair ")
+
+
+def pair_args(t: str):
+    """The two component types of `pair T1 T2`."""
+    out, depth, cur = [], 0, ""
+    for w in t[5:].replace("(", " ( ").replace(")", " ) ").split():
+        depth += (w == "(") - (w == ")")
+        cur = (cur + " " + w).strip()
+        if depth == 0:
+            out.append(cur)
+            cur = ""
+    out = [norm_paren(x) for x in out]
+    if len(out) != 2:
+        raise ValueError(t)
+    return out
+
+
+def norm_paren(x: str) -> str:
+    x = x.replace("( ", "(").replace(" )", ")")
+    return x[1:-1] if x.startswith("(") and x.endswith(")") else x
+
+
 def coq_type(t: str, base=None) -> str:
     if base and t in base:
         return base[t]
+    if is_pair(t):
+        a, b = (coq_type(x, base) for x in pair_args(t))
+        return "(" + " * ".join(x if " " not in x or x.startswith("(") else "(" + x + ")" for x in (a, b)) + ")"
     if "->" in t:
         return " -> ".join(coq_type(p.strip(), base) for p in t.split("->"))
     if t in COQ_TYPE:
         return COQ_TYPE[t]
     a = coq_type(arg_of(t), base)
-    return f"{t.split(' ', 1)[0]} {a if ' ' not in a else '(' + a + ')'}"
+    return f"{t.split(' ', 1)[0]} {a if ' ' not in a or is_pair(arg_of(t)) else '(' + a + ')'}"
 
 
 def inst_type(t: str, sfx: str, parametric) -> str:
@@ -444,7 +512,7 @@ class _Fun:
                              and not any(m.name == n.func.attr and m.pure for m in self.unit.done_methods.get(
                                  self.kind(self.spec.types[n.func.value.id])[1], []))):
                     out.add(n.func.value.id)     # s.add(e) on a set / a method call on an object
-                elif _is_self_call(n) and not (self.cls is not None and self.cls.frozen):
+                elif _is_self_call(n) and not (self.cls is not None and self.cls.frozen) and not self.pure_self_call(n):
                     out.update(self.fieldvars)
         return out
 
@@ -481,7 +549,9 @@ class _Fun:
 
     def is_fresh(self, e) -> bool:
         """Does `e` build a new list object (so that assigning it creates no alias)?"""
-        if isinstance(e, ast.List) and not e.elts:
+        if isinstance(e, ast.List) and (not e.elts or self.unit is not None):
+            return True
+        if self.fresh_call(e):
             return True
         if isinstance(e, ast.BinOp) and isinstance(e.op, ast.Mult) and isinstance(e.left, ast.List) and len(e.left.elts) == 1:
             return True
@@ -489,6 +559,22 @@ class _Fun:
                 and not e.keywords:
             return True
         return self.comp_kind(e) is not None
+
+    def fresh_call(self, e) -> bool:
+        """`f(..)`, f a function of the unit (or the function itself) that takes no list: the list it returns was built by
+        the call (pyfun only ever binds a list variable to a freshly built list), so nothing else names it."""
+        if self.unit is None or not (isinstance(e, ast.Call) and isinstance(e.func, ast.Name)) or e.func.id in self.spec.types:
+            return False
+        spec = self.unit.functions.get(e.func.id) or (self.spec if self.is_self_rec(e) else None)
+        if spec is None or not is_list(spec.ret):
+            return False
+        params = self.unit.params.get(e.func.id) or self.params
+        return not any(is_list(spec.types[p]) for p in params)
+
+    def is_self_rec(self, e) -> bool:
+        """`f(..)` inside the module-level function `f` declared structurally recursive."""
+        return self.cls is None and self.unit is not None and bool(self.spec.rec_on) and isinstance(e, ast.Call) \
+            and isinstance(e.func, ast.Name) and e.func.id == self.fn.name and e.func.id not in self.spec.types
 
     def ntype(self, e, env) -> str:
         """Natural type of an expression: a declared type, lit (int literal: adapts), none (the
@@ -527,6 +613,8 @@ class _Fun:
         elif isinstance(e, ast.Dict) and self.unit is not None and self.unit.nodedicts and len(e.keys) == 1 \
                 and e.keys[0] is not None:
             return "newdict"
+        elif isinstance(e, ast.Dict) and self.unit is not None and self.unit.nodedicts and not e.keys and self.unit.ntrees:
+            return "newdict"
         elif isinstance(e, ast.Name) and isinstance(e.ctx, ast.Load):
             t = self.vtype(e, e.id, env)
             if e.id not in env:
@@ -556,6 +644,13 @@ class _Fun:
             return "bool"
         elif isinstance(e, ast.Call):
             return self.call_type(e, env)
+        elif isinstance(e, ast.Tuple) and self.unit is not None and len(e.elts) == 2 and isinstance(e.ctx, ast.Load):
+            parts = [self.ntype(x, env) for x in e.elts]
+            if any(x in ("lit", "none", "newlist", "newset", "newdict") or x.startswith("new ") for x in parts):
+                self.abort(e, "tuple display with a component whose type is not determined")
+            return "pair " + " ".join(x if " " not in x else "(" + x + ")" for x in parts)
+        elif isinstance(e, ast.Subscript) and self.unit is not None and is_pair(self.ntype(e.value, env)):
+            return pair_args(self.ntype(e.value, env))[self.pair_index(e)]
         elif isinstance(e, ast.Subscript):
             bt = self.ntype(e.value, env)
             if self.kind(bt)[0] in ("mapping", "enumdict"):
@@ -567,6 +662,8 @@ class _Fun:
             return arg_of(bt)
         elif isinstance(e, ast.List) and not e.elts:
             return "list" if self.unit is None else "newlist"
+        elif isinstance(e, ast.List) and self.unit is not None and not any(isinstance(x, ast.Starred) for x in e.elts):
+            return "newlist"
         elif isinstance(e, ast.ListComp):
             k = self.comp_kind(e)
             if k and k[0] == "repeat":
@@ -574,6 +671,14 @@ class _Fun:
             if k and k[0] == "filter":
                 return self.ntype(k[2], env)
         self.abort(e, f"expression outside the handled subset: {ast.dump(e)[:80]}")
+
+    def pair_index(self, e) -> int:
+        """0 / 1 for the subscript `e` = `t[0]` / `t[1]` on a 2-tuple (any other index aborts)."""
+        sl = e.slice
+        if not (isinstance(sl, ast.Constant) and type(sl.value) is int and sl.value in (0, 1)) \
+                or not isinstance(e.ctx, ast.Load):
+            self.abort(e, "a 2-tuple is only read with the literal index 0 or 1")
+        return sl.value
 
     def ext_sum(self, e, env):
         """The type of `a + b` when an operand is of an opaque number type the unit declared an addition for
@@ -632,12 +737,26 @@ class _Fun:
             return None
         return decl[0], decl[1], decl[2], recv
 
+    def foreign_call(self, e, env):
+        """(argument types, result type, Coq function, lift, variable) when `e` is `x(..)`, x a variable (an attribute of
+        self) holding an object of a class translated into another generated file; else None."""
+        f = e.func
+        if self.unit is None or not (isinstance(f, ast.Name) and f.id in env and f.id in self.spec.types):
+            return None
+        k, name, _ = self.kind(self.spec.types[f.id])
+        if k != "foreign":
+            return None
+        decl = self.unit.foreigns[name]
+        if decl["call"] is None:
+            self.abort(e, f"call of an object of {name}, for which no call is declared")
+        return decl["call"][0], decl["call"][1], decl["call"][2], decl["lift"], f.id
+
     def tree_test(self, e, env):
         """The receiver when `e` is `x.is_leaf()` on a variable of a declared tree type; else None."""
         f = e.func
         if self.unit is not None and isinstance(f, ast.Attribute) and f.attr == "is_leaf" and not e.args \
                 and isinstance(f.value, ast.Name) and f.value.id in env \
-                and self.kind(self.spec.types.get(f.value.id, ""))[0] == "tree":
+                and self.kind(self.spec.types.get(f.value.id, ""))[0] in ("tree", "ntree"):
             return f.value
         return None
 
@@ -732,12 +851,21 @@ class _Fun:
             if f.id == "min" and len(e.args) == 2 and self.unit.products \
                     and all(self.ntype(a, env) in ("N", "Z", "lit") for a in e.args):
                 return self.join(e, self.ntype(e.args[0], env), self.ntype(e.args[1], env))
+            if f.id == "max" and len(e.args) == 2 and self.unit.products and self.unit.ntrees \
+                    and all(self.ntype(a, env) in ("N", "Z", "lit") for a in e.args):
+                return self.join(e, self.ntype(e.args[0], env), self.ntype(e.args[1], env))
+            if f.id in self.unit.foreigns:
+                return "new " + f.id
+            if self.is_self_rec(e):
+                return self.spec.ret
             if f.id in self.unit.externals and f.id not in self.unit.functions:
                 return self.unit.externals[f.id][1]
             if f.id in self.unit.datas or f.id in self.unit.classes:
                 return "new " + f.id
         if self.unit is not None and isinstance(f, ast.Name) and "->" in self.spec.types.get(f.id, ""):
             return self.spec.types[f.id].split("->")[-1].strip()
+        if self.foreign_call(e, env) is not None:
+            return self.foreign_call(e, env)[1]
         if self.tree_test(e, env) is not None:
             return "bool"
         if self.opaque_call(e, env) is not None:
@@ -766,6 +894,10 @@ class _Fun:
 
     def expr(self, e, want: str, env, hoist) -> str:
         """Coq term of type `want` for `e`; index expressions are appended to `hoist`."""
+        if isinstance(e, ast.Tuple) and self.unit is not None and is_pair(want) and len(e.elts) == 2 \
+                and isinstance(e.ctx, ast.Load):
+            wa, wb = pair_args(want)                     # components left to right
+            return f"({self.expr(e.elts[0], wa, env, hoist)}, {self.expr(e.elts[1], wb, env, hoist)})"
         t = self.ntype(e, env)
         if want == "bool" and t in ("N", "Z", "lit"):        # truthiness of an int
             t = "Z" if t == "lit" else t
@@ -784,12 +916,15 @@ class _Fun:
             if self.kind(want)[0] != "nodedict":
                 self.abort(e, f"dictionary display where a value of type {want} is expected")
             tree, vt, _ = self.unit.nodedicts[want]
+            if not e.keys:
+                return f"(@nil ({self.unit.ident_of(tree)} * {self.ct(vt)}))"
             if self.ntype(e.keys[0], env) != tree:
                 self.abort(e, f"key of a {want} that is not a node of a {tree}")
             k = self.raw(e.keys[0], tree, env, hoist)                      # key first, then the value
             return f"(cons ({tree}_id {k}, {self.expr(e.values[0], vt, env, hoist)}) nil)"
         if t.startswith("new "):
-            if self.kind(want)[:2] != (("data" if t[4:] in self.unit.datas else "class"), t[4:]):
+            if self.kind(want)[:2] != (("data" if t[4:] in self.unit.datas else "foreign" if t[4:] in self.unit.foreigns
+                                        else "class"), t[4:]):
                 self.abort(e, f"construction of a {t[4:]} where a value of type {want} is expected")
             return self.raw(e, want, env, hoist)
         if t == "none":
@@ -874,12 +1009,28 @@ class _Fun:
                 cnt = self.expr(e.right, "N", env, hoist)
                 return f"({t}.{op} {self.expr(e.left, t, env, hoist)} {cnt if t == 'N' else '(Z.of_N ' + cnt + ')'})"
             return f"({t}.{op} {self.expr(e.left, t, env, hoist)} {self.expr(e.right, t, env, hoist)})"
+        if isinstance(e, ast.Compare) and len(e.ops) == 1 and isinstance(e.ops[0], (ast.In, ast.NotIn)) \
+                and self.unit is not None and isinstance(e.comparators[0], ast.Name) \
+                and self.kind(self.ntype(e.comparators[0], env))[0] == "nodedict":
+            # node in d / node not in d, d a dictionary keyed by nodes (kept as the list of its stores)
+            d = e.comparators[0].id
+            tree, _, eqf = self.unit.nodedicts[self.ntype(e.comparators[0], env)]
+            if self.ntype(e.left, env) != tree:
+                self.abort(e, f"membership test in {d} of something that is not a node of a {tree}")
+            self.need("dict_mem")
+            term = f"(dict_mem {eqf} {d} ({tree}_id {self.raw(e.left, tree, env, hoist)}))"
+            return f"(negb {term})" if isinstance(e.ops[0], ast.NotIn) else term
         if isinstance(e, ast.Compare):
             if len(e.ops) != 1 or type(e.ops[0]) not in CMPOPS:
                 self.abort(e, "only a single comparison == != < <= > >= is handled")
             fn, swap, neg = CMPOPS[type(e.ops[0])]
             lt, rt = self.ntype(e.left, env), self.ntype(e.comparators[0], env)
-            if lt == rt == "elem" and fn == "eqb":
+            if lt == rt and self.kind(lt)[0] == "ntree" and fn == "eqb":
+                # == / != on two nodes: identity of the objects (ete3 nodes define no __eq__)
+                a = f"({lt}_id {self.expr(e.left, lt, env, hoist)})"
+                b = f"({lt}_id {self.expr(e.comparators[0], lt, env, hoist)})"
+                f = self.unit.ntrees[lt][1]
+            elif lt == rt == "elem" and fn == "eqb":
                 a, b, f = self.expr(e.left, "elem", env, hoist), self.expr(e.comparators[0], "elem", env, hoist), "eqb"
                 self.uses_eqb = True
             elif lt == rt and self.kind(lt)[0] == "opaque":
@@ -926,6 +1077,20 @@ class _Fun:
                 return f"({proj} {d})"
             kt = self.ntype(key, env)
             return f"({d} ({kt}_id {self.raw(key, kt, env, hoist)}))"
+        if isinstance(e, ast.Subscript) and self.unit is not None and is_pair(self.ntype(e.value, env)):
+            return f"({('fst', 'snd')[self.pair_index(e)]} {self.raw(e.value, self.ntype(e.value, env), env, hoist)})"
+        if isinstance(e, ast.Subscript) and isinstance(e.value, ast.Name) and self.unit is not None \
+                and self.kind(self.ntype(e.value, env))[0] == "nodedict" and self.unit.ntrees:
+            # (as below; the key may itself be hoisted, e.g. d[xs[0]]: it is evaluated first)
+            tree, _, eqf = self.unit.nodedicts[self.ntype(e.value, env)]
+            if isinstance(e.slice, ast.Slice) or self.ntype(e.slice, env) != tree:
+                self.abort(e, f"key of {e.value.id} that is not a node of a {tree}")
+            self.need("dict_get", "KeyError")
+            key = self.raw(e.slice, tree, env, hoist)
+            self.nt += 1
+            tmp = f"t'{self.nt}"
+            hoist.append(("unwrap", tmp, f"dict_get {eqf} {e.value.id} ({tree}_id {key})", "KeyError"))
+            return tmp
         if isinstance(e, ast.Subscript) and isinstance(e.value, ast.Name) and self.unit is not None \
                 and self.kind(self.ntype(e.value, env))[0] == "nodedict":
             # d[node] on a local dictionary keyed by nodes: KeyError when the node was never stored
@@ -949,6 +1114,11 @@ class _Fun:
             else:
                 self.abort(e, "only xs[i] with xs a declared sequence variable is handled")
             return self.index(e, seq, e.slice, env, hoist)
+        if isinstance(e, ast.List) and e.elts:
+            out = "nil"
+            for item in reversed([self.expr(x, arg_of(t), env, hoist) for x in e.elts]):     # evaluated left to right
+                out = f"(cons {item} {out})"
+            return out
         if isinstance(e, ast.List):
             return "(@nil A)" if t == "list" else f"(@nil ({self.ct(arg_of(t))}))"
         if isinstance(e, ast.ListComp):
@@ -1032,8 +1202,32 @@ class _Fun:
                 self.need("set_add", "set_of_list")
                 self.uses_eqb = True
                 return f"(set_of_list {self.expr(e.args[0], 'list', env, hoist)})"
-            if f.id == "min" and len(e.args) == 2 and t in ("N", "Z") and self.unit.products:
-                return f"({t}.min {self.expr(e.args[0], t, env, hoist)} {self.expr(e.args[1], t, env, hoist)})"
+            if f.id in ("min", "max") and len(e.args) == 2 and t in ("N", "Z") and self.unit.products \
+                    and (f.id == "min" or self.unit.ntrees):
+                return f"({t}.{f.id} {self.expr(e.args[0], t, env, hoist)} {self.expr(e.args[1], t, env, hoist)})"
+            if f.id in self.unit.foreigns:
+                # C(args), C a class translated into another generated file: a fresh object (it keeps no alias of a list
+                # argument: pyfun never lets a translated method do that)
+                decl = self.unit.foreigns[f.id]
+                if decl["init"] is None or len(decl["init"][0]) != len(e.args) or any(isinstance(a, ast.Starred) for a in e.args):
+                    self.abort(e, f"construction of a {f.id} with {len(e.args)} arguments")
+                args = [self.expr(a, at, env, hoist) for a, at in zip(e.args, decl["init"][0])]
+                self.nt += 1
+                hoist.append(("call", f"t'{self.nt}", f"{decl['lift']} ({' '.join([decl['init'][1]] + args)})"))
+                return f"t'{self.nt}"
+            if self.is_self_rec(e):
+                # f(..) inside f, structurally recursive on its tree parameter: the argument in that position must be a
+                # variable bound to a child of the parameter (Coq's guard checker re-checks the decrease)
+                if len(e.args) != len(self.params) or any(isinstance(a, ast.Starred) for a in e.args):
+                    self.abort(e, f"recursive call with {len(e.args)} arguments")
+                a = e.args[self.params.index(self.spec.rec_on)]
+                if not (isinstance(a, ast.Name) and a.id in self.subtrees):
+                    self.abort(e, f"recursive call whose argument for {self.spec.rec_on!r} is not a child of it")
+                args = [self.expr(x, self.spec.types[p], env, hoist) for x, p in zip(e.args, self.params)]
+                self.in_rec = True
+                self.nt += 1
+                hoist.append(("call", f"t'{self.nt}", " ".join([self.prefix + (self.spec.alias or self.fn.name)] + args)))
+                return f"t'{self.nt}"
             if f.id in self.unit.externals and f.id not in self.unit.functions:
                 argts, _, coq = self.unit.externals[f.id]
                 if len(argts) != len(e.args):
@@ -1055,6 +1249,14 @@ class _Fun:
                 self.nt += 1
                 hoist.append(("call", f"t'{self.nt}", " ".join([self.callee(e, cls, init, sfx)] + args)))
                 return f"t'{self.nt}"
+        if self.foreign_call(e, env) is not None:
+            argts, _, coq, lift, x = self.foreign_call(e, env)
+            if len(argts) != len(e.args) or any(isinstance(a, ast.Starred) for a in e.args):
+                self.abort(e, f"call of {x} with {len(e.args)} arguments")
+            args = [self.expr(a, at, env, hoist) for a, at in zip(e.args, argts)]
+            self.nt += 1
+            hoist.append(("call", f"(_, t'{self.nt})", f"{lift} ({' '.join([coq, x] + args)})"))
+            return f"t'{self.nt}"
         if isinstance(f, ast.Name) and "->" in self.spec.types.get(f.id, ""):
             parts = [p.strip() for p in self.spec.types[f.id].split("->")]
             if f.id not in env or f.id not in self.params or len(parts) - 1 != len(e.args):
@@ -1103,14 +1305,30 @@ class _Fun:
         if isinstance(f, ast.Name) and f.id in self.unit.functions:
             callee = self.unit.functions[f.id]
             params = self.unit.params[f.id]
-            if len(params) != len(e.args):
+            dflt = self.unit.fun_defaults.get(f.id, {})
+            if len(params) != len(e.args) and not (len(e.args) < len(params) and all(p in dflt for p in params[len(e.args):])):
                 self.abort(e, f"{f.id}() called with {len(e.args)} arguments")
+            if any(isinstance(a, ast.Starred) for a in e.args):
+                self.abort(e, f"{f.id}() called with a starred argument")
             args = [self.expr(a, callee.types[p], env, hoist) for a, p in zip(e.args, params)]
+            args += [f"{dflt[p]}%{callee.types[p]}" for p in params[len(e.args):]]        # omitted: the declared default
             for a, p in zip(e.args, params):
                 if is_list(callee.types[p]) and not isinstance(a, ast.Name):
                     self.abort(e, "list argument that is not a variable")
             self.nt += 1
             hoist.append(("call", f"t'{self.nt}", " ".join([self.prefix + (callee.alias or callee.name)] + args)))
+            return f"t'{self.nt}"
+        if self.pure_self_call(e) and self.spec.pure and not self.cls.frozen:
+            # a method that only reads its object calls another one: nothing can be modified, so the call may stand anywhere
+            # in an expression; calls are hoisted in evaluation order (arguments first) and only the first error matters
+            callee = self.resolve(e)
+            if callee is None or not callee.ret or callee.ret == "unit" or callee.name == "__init__" or not callee.pure:
+                self.abort(e, f"call of {f.attr!r}, which is not a translated reading method returning a value")
+            if any(v not in env for v in self.fieldvars) or self.unit.outside:
+                self.abort(e, "method call before every attribute is assigned / outside the section of the class")
+            args = self.method_args(e, self.cls, callee, "", env, hoist, nested=True)
+            self.nt += 1
+            hoist.append(("call", f"(_, t'{self.nt})", " ".join([self.callee(e, self.cls, callee, ""), self.state(e)] + args)))
             return f"t'{self.nt}"
         if (_is_self_call(e) or _is_super_call(e)) and self.cls is not None:
             if id(e) not in self.callpos and not self.cls.frozen:
@@ -1157,6 +1375,49 @@ class _Fun:
             return f"t'{self.nt}"
         self.abort(e, "call outside the handled subset")
 
+    def pure_calls(self) -> bool:
+        """May this method call methods of self anywhere in an expression?  Yes when nothing can be modified: a frozen
+        class, or (units with `pure_self_calls`) a method declared `pure` calling methods declared `pure`."""
+        return self.cls is not None and (self.cls.frozen or (self.unit.pure_self_calls and self.spec.pure))
+
+    def pure_self_call(self, n) -> bool:
+        """`self.m(..)` with m a method declared `pure` translated before, in a unit with `pure_self_calls`."""
+        if not (_is_self_call(n) and self.cls is not None and self.unit is not None and self.unit.pure_self_calls):
+            return False
+        return any(m.name == n.func.attr and m.pure for m in self.unit.done_methods.get(self.cls.name, []))
+
+    def later_operand_raises(self, v, env) -> bool:
+        """Does an operand of the and/or `v` other than the first one need hoisted code (a call, an index)?  (Probed by
+        translating them; the counters and the helper sets are restored.)"""
+        saved = (self.nt, set(self.unit.helpers), set(self.unit.errors), self.uses_eqb, self.in_rec, set(self.callpos))
+        try:
+            for x in v.values[1:]:
+                self.callpos = {id(n) for n in ast.walk(x)}
+                sub: list = []
+                self.expr(x, "bool", env, sub)
+                if sub:
+                    return True
+            return False
+        except TranslatorAbort:
+            return False
+        finally:
+            self.nt, self.unit.helpers, self.unit.errors, self.uses_eqb, self.in_rec, self.callpos = saved
+
+    def tail_slice(self, a, env):
+        """(list variable, start term as a `nat`) when `a` is `xs[k:]`, xs a list variable, k a literal or an N; else None."""
+        if self.unit is None or not self.unit.ntrees or not (isinstance(a, ast.Subscript) and isinstance(a.slice, ast.Slice)
+                                                              and isinstance(a.value, ast.Name)):
+            return None
+        sl = a.slice
+        if sl.upper is not None or sl.step is not None or sl.lower is None or a.value.id not in env \
+                or not is_list(self.ntype(a.value, env)) or self.ntype(sl.lower, env) not in ("N", "lit"):
+            return None
+        sub: list = []
+        k = self.expr(sl.lower, "N", env, sub)
+        if sub:
+            return None
+        return a.value.id, f"(N.to_nat {k})"
+
     def resolve(self, e) -> Optional[FunSpec]:
         """The translated method a call `self.m(..)` / `super().m(..)` reaches: `self.m` is the definition of the class
         itself when it has one, else the inherited one; `super().m`, written in a method defined by the class itself, is
@@ -1191,7 +1452,7 @@ class _Fun:
             self.abort(node, f"{cls.name}.{m.name} compares elements, and no equality is declared for this instance")
         return f"(@{name} {a}{' ' + eq if dep else ''})"
 
-    def method_args(self, e, cls: ClassSpec, m: FunSpec, sfx: str, env, hoist) -> List[str]:
+    def method_args(self, e, cls: ClassSpec, m: FunSpec, sfx: str, env, hoist, nested: bool = False) -> List[str]:
         """Argument terms of the call `e` of method `m` (`*args` of the callee: one list)."""
         params = self.unit.params[(cls.name, _mkey(m))]
         var = self.unit.varargs.get((cls.name, _mkey(m)))
@@ -1205,7 +1466,7 @@ class _Fun:
             pt = inst_type(m.types[p], sfx, par)
             if is_list(pt) or self.kind(pt)[0] in ("set", "class"):
                 self.abort(e, "mutable argument (list, set, object) to a method")
-            if any(_is_self_call(n) for n in ast.walk(a)):
+            if any(_is_self_call(n) for n in ast.walk(a)) and not nested:
                 self.abort(e, "method call inside the arguments of a method call")
             args.append(self.expr(a, pt, env, hoist))
         if var is not None:
@@ -1318,6 +1579,30 @@ class _Fun:
         self.mark_calls(s)
         if isinstance(s, (ast.Return, ast.Break)) and rest:
             self.abort(rest[0], "statement after return/break")
+        if isinstance(s, ast.Return) and isinstance(s.value, ast.BoolOp) and self.unit is not None and self.spec.ret == "bool" \
+                and self.pure_calls() and len(s.value.values) >= 2 and self.later_operand_raises(s.value, env):
+            # return a or b (a and b) on booleans, b able to raise: b is evaluated only when a is false (true)
+            v = s.value
+            first = v.values[0]
+            if self.ntype(first, env) != "bool":
+                self.abort(s, "and/or with a non-boolean operand that is followed by an operand that can raise")
+            others = v.values[1] if len(v.values) == 2 else ast.copy_location(ast.BoolOp(op=v.op, values=v.values[1:]), v)
+            short = ast.copy_location(ast.Return(value=ast.copy_location(ast.Constant(value=isinstance(v.op, ast.Or)), v)), s)
+            go_on = ast.copy_location(ast.Return(value=others), s)
+            body, orelse = ([short], [go_on]) if isinstance(v.op, ast.Or) else ([go_on], [short])
+            return self.block([ast.copy_location(ast.If(test=first, body=body, orelse=orelse), s)], env, ctx)
+        if isinstance(s, ast.Raise) and self.unit is not None and self.unit.raises:
+            # raise E("message"): E a modelled built-in exception (the message is not modelled)
+            x = s.exc
+            if s.cause is not None or not (isinstance(x, ast.Call) and isinstance(x.func, ast.Name) and x.func.id in RAISABLE
+                                           and not x.keywords and all(isinstance(a, ast.Constant) for a in x.args)) \
+                    or x.func.id in self.spec.types or self.unit.rebinds(x.func.id):
+                self.abort(s, "raise outside the handled subset (raise <built-in error>(<literals>))")
+            if rest:
+                self.abort(rest[0], "statement after raise")
+            if x.func.id != "IndexError":
+                self.need(x.func.id)
+            return [ctx.fail(x.func.id)]
         if isinstance(s, ast.Return):
             if s.value is None and self.spec.ret == "unit":
                 return [ctx.ret("tt")]
@@ -1379,6 +1664,18 @@ class _Fun:
                 call = " ".join([self.callee(s, cls, m, sfx), x] + args)
                 return self.hoisted(h, [f"match {call} with", "| Err e' => " + ctx.fail("e'"),
                                         f"| Ok ({'_' if m.pure else x}, _) =>"] + _ind(self.block(rest, env, ctx)) + ["end"], ctx)
+        if isinstance(s, ast.Expr) and self.unit is not None and self.unit.ntrees and isinstance(s.value, ast.Call) \
+                and isinstance(s.value.func, ast.Attribute) and s.value.func.attr == "extend" \
+                and isinstance(s.value.func.value, ast.Name) and len(s.value.args) == 1 and not s.value.keywords:
+            # xs.extend(e): the elements of e are appended (e itself is not kept: no alias)
+            x = s.value.func.value.id
+            lt = self.ntype(s.value.func.value, env)
+            if not is_list(lt) or x in self.params:
+                self.abort(s, "extend is only handled on a local sequence variable (a parameter would be mutated for the caller)")
+            if x in _names([s.value.args[0]]):
+                self.abort(s, "xs.extend(..xs..)")
+            term = f"({x} ++ {self.expr(s.value.args[0], lt, env, h)})"
+            return self.hoisted(h, [f"let {x} := {term} in"] + self.block(rest, env, ctx), ctx)
         if isinstance(s, ast.Expr):
             c = s.value
             if not (isinstance(c, ast.Call) and isinstance(c.func, ast.Attribute) and c.func.attr == "append"
@@ -1419,6 +1716,15 @@ class _Fun:
                     load = ast.copy_location(ast.Name(id=s.targets[0].id, ctx=ast.Load()), s)
                     second = ast.copy_location(ast.Assign(targets=[s.targets[1]], value=load), s)
                     return self.block([first, second] + rest, env, ctx)
+                if len(s.targets) == 2 and self.unit is not None and self.unit.ntrees \
+                        and all(isinstance(x, ast.Name) for x in s.targets) and s.targets[0].id != s.targets[1].id \
+                        and all(self.spec.types.get(x.id) in ("N", "Z", "bool") for x in s.targets) \
+                        and self.spec.types[s.targets[0].id] == self.spec.types[s.targets[1].id]:
+                    # a = b = e on ints / booleans: e is evaluated once and bound to a, then to b
+                    first = ast.copy_location(ast.Assign(targets=[s.targets[0]], value=s.value), s)
+                    load = ast.copy_location(ast.Name(id=s.targets[0].id, ctx=ast.Load()), s)
+                    second = ast.copy_location(ast.Assign(targets=[s.targets[1]], value=load), s)
+                    return self.block([first, second] + rest, env, ctx)
                 if len(s.targets) != 1:
                     self.abort(s, "only 'name = expression' assignments are handled")
                 target = s.targets[0]
@@ -1426,8 +1732,8 @@ class _Fun:
                         and target.value.id in env and self.kind(self.spec.types.get(target.value.id, ""))[0] == "nodedict":
                     d = target.value.id
                     tree, vt, _ = self.unit.nodedicts[self.ty(s, d)]
-                    if d in self.params or d in self.fieldvars or isinstance(target.slice, ast.Slice) \
-                            or self.ntype(target.slice, env) != tree:
+                    if d in self.params or (d in self.fieldvars and not (self.fn.name == "__init__" and self.unit.ntrees)) \
+                            or isinstance(target.slice, ast.Slice) or self.ntype(target.slice, env) != tree:
                         self.abort(s, f"store into {d} (a parameter / an attribute), or with a key that is not a node of a {tree}")
                     val = self.expr(s.value, vt, env, h)                   # the value first, then the key
                     key = self.raw(target.slice, tree, env, h)
@@ -1489,11 +1795,15 @@ class _Fun:
                 if self.ntype(s.value, env) != "newset":
                     self.abort(s, "a set variable may only be assigned set() or {e} (anything else could alias another set)")
             elif self.kind(xt)[0] == "nodedict":
-                if self.ntype(s.value, env) != "newdict" or x in self.fieldvars or x in self.params:
+                if self.ntype(s.value, env) != "newdict" or x in self.params \
+                        or (x in self.fieldvars and not (self.fn.name == "__init__" and self.unit.ntrees)):
                     self.abort(s, "a dictionary variable may only be a local assigned a dictionary display {k: e}")
             elif self.kind(xt)[0] == "class":
                 if not self.ntype(s.value, env).startswith("new ") or x in self.fieldvars:
                     self.abort(s, "an object variable may only be a local assigned a newly constructed object")
+            elif self.kind(xt)[0] == "foreign":
+                if self.ntype(s.value, env) != "new " + xt or not (x in self.fieldvars and self.fn.name == "__init__"):
+                    self.abort(s, f"a {xt} may only be an attribute that __init__ assigns a newly constructed object")
             elif xt == "none" or "->" in xt:
                 self.abort(s, f"assignment to {x!r}, declared as an omitted parameter / a function")
             term = self.expr(s.value, xt, env, h)
@@ -1561,7 +1871,11 @@ class _Fun:
                 self.abort(s, "loop with an else clause")
             call, state = self.loop(s, env, h)
             pat = "_" if not state else state[0] if len(state) == 1 else "(" + ", ".join(state) + ")"
-            return self.hoisted(h, [f"match {call} with", f"| Next {pat} =>"] + _ind(self.block(rest, env, ctx))
+            if isinstance(call, list):          # a loop emitted in place (a local fix): several lines
+                head = ["match"] + _ind(call) + ["with"]
+            else:
+                head = [f"match {call} with"]
+            return self.hoisted(h, head + [f"| Next {pat} =>"] + _ind(self.block(rest, env, ctx))
                                 + ["| Ret r' => " + (ctx.retp or ctx.ret)("r'"), "| Fail e' => " + ctx.fail("e'"), "end"], ctx)
         self.abort(s, f"statement outside the handled subset: {type(s).__name__}")
 
@@ -1570,8 +1884,14 @@ class _Fun:
         self.nloop += 1
         n = self.nloop
         targets: List[str] = []
+        pattern = None
         if isinstance(s, ast.For) and self.unit is not None and isinstance(s.target, ast.Name) \
-                and (isinstance(s.iter, ast.Name) or isinstance(s.iter, ast.Call) and self.obj_call(s.iter, env) is not None):
+                and isinstance(s.iter, ast.Attribute) and s.iter.attr == "children" and isinstance(s.iter.value, ast.Name) \
+                and s.iter.value.id in env and self.kind(self.spec.types.get(s.iter.value.id, ""))[0] == "ntree":
+            it, kind, targets = s.iter, "children", [s.target.id]
+        elif isinstance(s, ast.For) and self.unit is not None and isinstance(s.target, ast.Name) \
+                and (isinstance(s.iter, ast.Name) or isinstance(s.iter, ast.Call) and self.obj_call(s.iter, env) is not None
+                     or self.tail_slice(s.iter, env) is not None):
             it, kind, targets = s.iter, "each", [s.target.id]
         elif isinstance(s, ast.For) and self.unit is not None and isinstance(s.iter, ast.Call) \
                 and isinstance(s.iter.func, ast.Name) and s.iter.func.id == "product" and "product" in self.unit.builtins \
@@ -1596,6 +1916,14 @@ class _Fun:
                     and all(isinstance(x, ast.Name) for x in s.target.elts) and isinstance(it.args[0], ast.Name) \
                     and len(it.args) == 1:
                 kind, targets = "enum", [x.id for x in s.target.elts]
+            elif it.func.id == "enumerate" and isinstance(s.target, ast.Tuple) and len(s.target.elts) == 2 \
+                    and self.unit is not None and self.unit.ntrees and isinstance(s.target.elts[0], ast.Name) \
+                    and isinstance(s.target.elts[1], ast.Tuple) and len(s.target.elts[1].elts) == 2 \
+                    and all(isinstance(x, ast.Name) for x in s.target.elts[1].elts) and isinstance(it.args[0], ast.Name) \
+                    and len(it.args) == 1:
+                # for i, (a, b) in enumerate(xs), xs a list of 2-tuples; a component named _ is not bound
+                pattern = [x.id for x in s.target.elts[1].elts]
+                kind, targets = "enum", [s.target.elts[0].id] + [x for x in pattern if x != "_"]
             else:
                 self.abort(s, "for loop outside the handled subset (range(e), enumerate(xs))")
         else:
@@ -1612,6 +1940,9 @@ class _Fun:
         if (self.spec.rec_fuel or self.spec.rec_on) and any(_is_self_call(c) and c.func.attr == self.fn.name
                                       for b in s.body for c in ast.walk(b)):
             self.abort(s, "recursive call inside a loop")
+        rec_inside = any(self.is_self_rec(c) for b in s.body for c in ast.walk(b))
+        if rec_inside and kind != "children":
+            self.abort(s, "recursive call inside a loop other than 'for c in <node>.children'")
         name = f"{self.prefix}{self.spec.alias or self.fn.name}_{'while' if kind == 'while' else 'for'}{n}"
         tup = "tt" if not state else state[0] if len(state) == 1 else "(" + ", ".join(state) + ")"
         sty = " * ".join(self.ct(self.ty(s, v)) for v in state) or "unit"
@@ -1627,14 +1958,45 @@ class _Fun:
             if not is_list(self.ntype(it.args[0], env)) or seq in mutated:
                 self.abort(s, "enumerate() must iterate a sequence variable the loop does not modify")
             et = arg_of(self.ntype(it.args[0], env))
-            if self.ty(s, targets[0]) != "N" or self.ty(s, targets[1]) != et:
-                self.abort(s, "enumerate() targets must be declared (N, elem)")
+            if pattern is not None:
+                if not is_pair(et) or any(x != "_" and self.ty(s, x) != ct for x, ct in zip(pattern, pair_args(et))) \
+                        or self.ty(s, targets[0]) != "N":
+                    self.abort(s, f"enumerate() targets must be declared (N, ({', '.join(pair_args(et)) if is_pair(et) else et}))")
+                item = "(" + ", ".join(pattern) + ")"
+            else:
+                if self.ty(s, targets[0]) != "N" or self.ty(s, targets[1]) != et:
+                    self.abort(s, "enumerate() targets must be declared (N, elem)")
+                item = targets[1]
             ctx.fall = args(["it''", "(N.succ idx')"])
             body = self.block(s.body, inner_env + targets, ctx)
             fix = [sig(f"(it' : {self.ct(self.ntype(it.args[0], env))}) (idx' : N)", "it'"), "  match it' with",
                    f"  | nil => Next {tup}",
-                   f"  | cons {targets[1]} it'' =>", f"    let {targets[0]} := idx' in"] + _ind(_ind(body)) + ["  end."]
+                   f"  | cons {item} it'' =>", f"    let {targets[0]} := idx' in"] + _ind(_ind(body)) + ["  end."]
             call = args([seq, "0%N"])
+        elif kind == "children":
+            # for c in x.children, x a node of an n-ary tree: the children in order.  When the body calls the enclosing
+            # (structurally recursive) function, the loop is a local [fix] inside that function's Fixpoint -- nested
+            # recursion: the children are subterms of x --, over the variables the body assigns (the others are in scope)
+            tv = it.value.id
+            tt = self.ty(s, tv)
+            if self.ty(s, targets[0]) != tt or tv in mutated:
+                self.abort(s, f"the loop variable must be declared {tt} (and the loop may not assign {tv!r})")
+            if tv in self.subtrees or tv == self.spec.rec_on:
+                self.subtrees.add(targets[0])
+            term, cty = f"({tt}_children {tv})", f"list {tt}"
+            if rec_inside:
+                ctx.fall = " ".join([name, "it''"] + state)
+                body = self.block(s.body, inner_env + targets, ctx)
+                head = " ".join([f"(fix {name} (it' : {cty})"] + [self.binder(s, v) for v in state]
+                                + [f"{{struct it'}} : flow ({sty}) ({self.RR}) :="])
+                lines = [head, "   match it' with", f"   | nil => Next {tup}", f"   | cons {targets[0]} it'' =>"] \
+                    + _ind(_ind(_ind(body))) + ["   end) " + " ".join([term] + state)]
+                return lines, state
+            ctx.fall = args(["it''"])
+            body = self.block(s.body, inner_env + targets, ctx)
+            fix = [sig(f"(it' : {cty})", "it'"), "  match it' with", f"  | nil => Next {tup}",
+                   f"  | cons {targets[0]} it'' =>"] + _ind(_ind(body)) + ["  end."]
+            call = args([term])
         elif kind == "each":
             term, cty, et = self.iterable(s, it, env, h, mutated)
             if self.ty(s, targets[0]) != et:
@@ -1732,6 +2094,13 @@ class _Fun:
 
     def iterable(self, s, a, env, h, mutated):
         """(term, Coq type, element type) of the list or set `a` a loop iterates (in list order)."""
+        ts = self.tail_slice(a, env)
+        if ts is not None:
+            # xs[k:]: a copy of xs without its first k items (all of them when k >= len(xs)); never raises
+            t = self.ntype(a.value, env)
+            if ts[0] in mutated:
+                self.abort(s, "the loop modifies the sequence it iterates")
+            return f"(skipn {ts[1]} {ts[0]})", self.ct(t), arg_of(t)
         t = self.ntype(a, env)
         if is_list(t):
             et = arg_of(t)
@@ -1755,10 +2124,19 @@ class _Fun:
         if fn.decorator_list:
             self.abort(fn, "decorated function")
         ext = self.unit is not None and self.cls is not None      # *args / omitted defaulted parameters: methods of a unit
-        if a.posonlyargs or a.kwonlyargs or a.kwarg or a.kw_defaults or ((a.vararg or a.defaults) and not ext):
+        fdef = self.unit is not None and self.cls is None and bool(self.unit.ntrees) and not a.vararg   # f(x, n=0)
+        if a.posonlyargs or a.kwonlyargs or a.kwarg or a.kw_defaults or ((a.vararg or a.defaults) and not (ext or fdef)):
             self.abort(fn, "only plain positional parameters without defaults are handled")
         self.params = [x.arg for x in a.args]
+        self.fun_defaults = {}
         for x, d in zip(a.args[len(a.args) - len(a.defaults):], a.defaults):
+            if fdef:
+                # a function parameter with a non-negative int literal as default: a call that omits it passes that literal
+                if not (isinstance(d, ast.Constant) and type(d.value) is int and d.value >= 0
+                        and self.spec.types.get(x.arg) in ("N", "Z")):
+                    self.abort(x, f"parameter {x.arg!r}: only a non-negative int literal default on an int parameter is handled")
+                self.fun_defaults[x.arg] = d.value
+                continue
             # a parameter with the default None that every translated call omits is the constant None
             if isinstance(d, ast.Constant) and d.value is None and self.unit.passed_defaults \
                     and self.kind(self.spec.types.get(x.arg, "none"))[0] == "tree":
@@ -1781,8 +2159,17 @@ class _Fun:
             return self.translate_method()
         binders = " ".join(self.binder(fn, p) for p in self.params)
         ctx = _Ctx(ret=lambda e: f"Ok {e}", fail=lambda e: f"Err {e}", fall=None)
+        if self.spec.rec_on and (self.unit is None or self.spec.rec_on not in self.params
+                                 or self.kind(self.spec.types[self.spec.rec_on])[0] != "ntree" or self.spec.rec_fuel):
+            self.abort(fn, "the recursion parameter of a function must be a parameter of a declared n-ary tree type")
         body = self.block(fn.body, list(self.params), ctx)
         head = f"(* {fn.name}, line {fn.lineno} *)\n"
+        if self.spec.rec_on:
+            if not self.in_rec:
+                self.abort(fn, "recursion parameter declared for a function that does not call itself")
+            return head + "\n\n".join(self.fixpoints + [
+                f"Fixpoint {self.prefix}{self.spec.alias or fn.name} {binders} {{struct {self.spec.rec_on}}} : res ({self.R}) :=\n"
+                + "\n".join(_ind(body)) + "."])
         return head + "\n\n".join(self.fixpoints + [
             f"Definition {self.prefix}{self.spec.alias or fn.name} {binders} : res ({self.R}) :=\n" + "\n".join(_ind(body)) + "."])
 
@@ -1847,6 +2234,16 @@ class _SelfRewriter(ast.NodeTransformer):
         self.fun, self.cls = fun, cls
 
     def visit_Call(self, node):
+        unit = self.fun.unit
+        if isinstance(node.func, ast.Name) and node.func.id == "self" and unit is not None and unit.pure_self_calls:
+            # self(..) is self.__call__(..)
+            base = ast.copy_location(ast.Name(id="self", ctx=ast.Load()), node)
+            node.func = ast.copy_location(ast.Attribute(value=base, attr="__call__", ctx=ast.Load()), node)
+        if _is_self_call(node) and unit is not None and unit.foreigns and node.func.attr in self.cls.fields:
+            # self.f(..), f a declared attribute (holding an object): a call of the variable self'f
+            node.func = ast.copy_location(ast.Name(id="self'" + node.func.attr, ctx=ast.Load()), node)
+            node.args = [self.visit(a) for a in node.args]
+            return node
         if _is_self_call(node):
             node.func.value.is_call_base = True
             node.args = [self.visit(a) for a in node.args]
@@ -1909,6 +2306,12 @@ class Unit:
         self.bool_asserts = False              # `assert <boolean expression>`
         self.passed_defaults = False           # `node=None` on a tree parameter that every translated call passes
         self.insts: Dict[str, tuple] = {"": ("A", "eqb")}   # type-name suffix -> (element type, its equality or None)
+        # fourth extension (all empty / False for the units that declare none of this)
+        self.ntrees: Dict[str, tuple] = {}     # n-ary tree type -> (Coq type of its node identifiers, their equality)
+        self.foreigns: Dict[str, dict] = {}    # class translated into another generated file -> its declaration
+        self.raises = False                    # `raise <Error>(..)` of a modelled built-in exception
+        self.pure_self_calls = False           # methods declared `pure` may call each other (and `self(..)`) in expressions
+        self.fun_defaults: Dict[str, dict] = {}   # translated function -> {parameter: its (int literal) default}
 
     # ------------------------------------------------------------ declared types
     def parametric(self) -> set:
@@ -1917,7 +2320,7 @@ class Unit:
 
     def extra_names(self) -> set:
         base = set(self.opaques) | set(self.enums) | {"unit", "none"} | set(self.trees) | set(self.mappings) \
-            | set(self.enumdicts) | set(self.nodedicts)
+            | set(self.enumdicts) | set(self.nodedicts) | set(self.ntrees) | set(self.foreigns)
         return base | {p + s for p in self.parametric() for s in self.insts}
 
     def kind(self, t: str):
@@ -1933,6 +2336,10 @@ class Unit:
             return "enumdict", t, ""
         if t in self.nodedicts:
             return "nodedict", t, ""
+        if t in self.ntrees:
+            return "ntree", t, ""
+        if t in self.foreigns:
+            return "foreign", t, ""
         for sfx in sorted(self.insts, key=len, reverse=True):
             b = t[:len(t) - len(sfx)] if sfx else t
             if t.endswith(sfx) and b in self.parametric():
@@ -1945,6 +2352,8 @@ class Unit:
         base.update({k: k for k in self.enums})
         base.update({k: k for k in self.trees})
         base.update({k: k for k in self.enumdicts})
+        base.update({k: k for k in self.ntrees})
+        base.update({k: v["coq"] for k, v in self.foreigns.items()})
         base["unit"] = "unit"
         for sfx, (a, _) in self.insts.items():
             arg = " " + a if self.outside else ""
@@ -1954,14 +2363,15 @@ class Unit:
                 base[d + sfx] = d + arg
             for c, spec in self.classes.items():
                 base[c + sfx] = f"{spec.short}_state{arg}"
-        if not self.opaques and not self.enums and not self.datas and not self.classes and not self.outside:
+        if not self.opaques and not self.enums and not self.datas and not self.classes and not self.outside \
+                and not self.ntrees and not self.foreigns:
             return {}
         for k, (tree, vt) in self.mappings.items():
             v = coq_type(vt, base)
             base[k] = f"{self.trees[tree]} -> {v if ' ' not in v else '(' + v + ')'}"
         for k, (tree, vt, _) in self.nodedicts.items():
             v = coq_type(vt, base)
-            base[k] = f"list ({self.trees[tree]} * {v if ' ' not in v else '(' + v + ')'})"
+            base[k] = f"list ({self.ident_of(tree)} * {v if ' ' not in v else '(' + v + ')'})"
         return base
 
     def cls_parametric(self, cls: ClassSpec) -> bool:
@@ -1994,6 +2404,19 @@ class Unit:
             where = (glob + star + [b[0] for b in binds] + [self.tree])[0]
             self.abort(where, f"{name!r} is not bound exactly once, by 'from {module} import {name}'")
 
+    def rebinds(self, name: str) -> bool:
+        """Does anything in the module bind `name` (so that it may not be the built-in of that name)?"""
+        for n in ast.walk(self.tree):
+            if isinstance(n, ast.Name) and n.id == name and isinstance(n.ctx, (ast.Store, ast.Del)) \
+                    or isinstance(n, (ast.FunctionDef, ast.AsyncFunctionDef, ast.ClassDef)) and n.name == name \
+                    or isinstance(n, ast.arg) and n.arg == name \
+                    or isinstance(n, (ast.Import, ast.ImportFrom)) and any(
+                        (a.asname or a.name).split(".")[0] == name or a.name == "*" for a in n.names) \
+                    or isinstance(n, (ast.Global, ast.Nonlocal)) and name in n.names \
+                    or isinstance(n, ast.ExceptHandler) and n.name == name:
+                return True
+        return False
+
     def opaque(self, name: str, coq: str, **cmp: str):
         """A type of immutable values the generated file takes from a library, with its comparison functions."""
         self.opaques[name] = (coq, cmp)
@@ -2018,6 +2441,64 @@ class Unit:
             f"Inductive {name} : Type := {name}_leaf (id : {ident}) | {name}_node (id : {ident}) (a b : {name}).",
             f"Definition {name}_id (t : {name}) : {ident} := match t with {name}_leaf i => i | {name}_node i _ _ => i end.",
             f"Definition {name}_is_leaf (t : {name}) : bool := match t with {name}_leaf _ => true | {name}_node _ _ _ => false end."])
+
+    def ident_of(self, tree: str) -> str:
+        """Coq type of the node identifiers of a declared (binary or n-ary) tree type."""
+        return self.trees[tree] if tree in self.trees else self.ntrees[tree][0]
+
+    def ntree(self, name: str, ident: str, eqb: str) -> str:
+        """A type of immutable trees whose nodes have any number of children (ete3): an Inductive whose nodes carry an
+        identifier of the Coq type `ident` (the identity of the Python node object; `==` / `!=` on two nodes compare
+        the identifiers with `eqb`) and the list of their children.  `x.is_leaf()` is `<name>_is_leaf x` (no child),
+        `for c in x.children` a loop over `<name>_children x`."""
+        if name in RESERVED or name in self.extra_names():
+            self.abort(self.tree, f"tree type name {name!r} is in use")
+        self.ntrees[name] = (ident, eqb)
+        self.taken.update({name, ident, eqb, f"{name}_node", f"{name}_id", f"{name}_children", f"{name}_is_leaf"})
+        return "\n".join([
+            f"(* {name}: a node has a list of children (a leaf: none); [id] stands for the identity of the node object *)",
+            f"Inductive {name} : Type := {name}_node (id : {ident}) (children : list {name}).",
+            f"Definition {name}_id (t : {name}) : {ident} := match t with {name}_node i _ => i end.",
+            f"Definition {name}_children (t : {name}) : list {name} := match t with {name}_node _ c => c end.",
+            f"Definition {name}_is_leaf (t : {name}) : bool := match {name}_children t with nil => true | cons _ _ => false end."])
+
+    def foreign_class(self, name: str, module: str, coq: str, lift: str, init: tuple = None, call: tuple = None):
+        """A class imported by `from <module> import <name>` that another driver translates into another generated file
+        (with `pyfun`, so that it keeps no alias of a list it is given and returns none): `coq` is the Coq type of its
+        objects, `init = (argument types, Coq function)` what `<name>(args)` is, `call = (argument types, result type,
+        Coq function)` what `x(args)` on an object is -- the function takes the object first and returns the other
+        file's `res (object * result)`; the driver declares (and has checked) that the call leaves the object as it is.
+        `lift` converts the other file's `res` into this file's."""
+        self.imported(name, module)
+        if name in RESERVED or name in self.extra_names():
+            self.abort(self.tree, f"class name {name!r} is in use")
+        ex = self.extra_names()
+        try:
+            decl = {"coq": coq, "lift": lift, "init": None, "call": None}
+            if init is not None:
+                decl["init"] = ([norm_type(a, ex) for a in init[0]], init[1])
+            if call is not None:
+                decl["call"] = ([norm_type(a, ex) for a in call[0]], norm_type(call[1], ex), call[2])
+        except ValueError as e:
+            self.abort(self.tree, f"unknown declared type {e.args[0]!r} for {name}")
+        self.foreigns[name] = decl
+        self.taken.add(lift)
+
+    def pair_ltb(self, name: str, first: str, second_tree: str, node_ltb: str) -> str:
+        """Python's `<` on tuples `(int, node)`: the first components decide unless they are equal; then the nodes are
+        compared: `==` first (identity: equal tuples are not `<`), and `<` between two distinct nodes -- which ete3 nodes
+        do not define (TypeError) -- is the function `node_ltb` on identifiers, an unknown the proofs quantify over."""
+        if first not in ("N", "Z") or second_tree not in self.ntrees or name in RESERVED or name in self.taken:
+            self.abort(self.tree, f"order {name!r}: only on pairs (N | Z, declared n-ary tree)")
+        ident, eqb = self.ntrees[second_tree]
+        self.taken.update({name, node_ltb})
+        ida, idb = f"({second_tree}_id (snd a))", f"({second_tree}_id (snd b))"
+        return "\n".join([
+            f"(* (l1, n1) < (l2, n2) on Python tuples: l1 < l2 when l1 != l2; else False when n1 == n2 (the same node);",
+            f"   else n1 < n2, which ete3 nodes do not define: [{node_ltb}] stands for whatever that would answer *)",
+            f"Definition {name} (a b : {first} * {second_tree}) : bool :=",
+            f"  if {first}.eqb (fst a) (fst b) then (if {eqb} {ida} {idb} then false else {node_ltb} {ida} {idb})",
+            f"  else {first}.ltb (fst a) (fst b)."])
 
     def mapping(self, name: str, tree: str, value: str):
         """A dictionary keyed by the nodes of the tree type `tree`, only ever read, total on the nodes looked up:
@@ -2180,9 +2661,12 @@ class Unit:
     def function(self, spec: FunSpec) -> str:
         fn = self._unique(self.tree.body, spec.name, ast.FunctionDef)
         spec = self._norm(fn, spec)
-        text = _Fun(self.path, copy.deepcopy(fn), spec, self.prefix, unit=self).translate()
+        fun = _Fun(self.path, copy.deepcopy(fn), spec, self.prefix, unit=self)
+        text = fun.translate()
         self.functions[spec.name] = spec
         self.params[spec.name] = [x.arg for x in fn.args.args]
+        if fun.fun_defaults:
+            self.fun_defaults[spec.name] = fun.fun_defaults
         return text
 
     def klass(self, cspec: ClassSpec) -> str:
@@ -2339,7 +2823,7 @@ class Unit:
         """A local dictionary keyed by the nodes of the tree type `tree` (created by a display `{node: e}`, read with
         `d[node]` -- KeyError when absent --, updated with `d[node] = e`): the list of its stores, newest first, keyed
         by node identifiers compared with the Coq function `eqb`."""
-        if tree not in self.trees or name in RESERVED or name in self.extra_names():
+        if (tree not in self.trees and tree not in self.ntrees) or name in RESERVED or name in self.extra_names():
             self.abort(self.tree, f"dictionary type {name!r}: unknown tree type {tree!r} / name in use")
         try:
             self.nodedicts[name] = (tree, norm_type(value, self.extra_names()), eqb)
